@@ -190,13 +190,19 @@ class C04StepND(Harness):
                 # two-point batches in ND: values within 1 width of the range (3 for single points) - the path count is (bins + 2*reach)^(2*D)
                 yield f"and-S{'x'.join(map(str, shape))}-{call}", dict(shape=list(shape), call=call, reach=2 if tier == "quick" else (1 if call == "filln2" else 3))
         yield "and-empty-fill", dict(shape=[0, 0], call="fill", reach=2)
+        # empty batches (no rows, or only rows that dropna removes), on a histogram that has no bins yet and on one that has
+        for call in ("filln0", "fillnnan"):
+            yield f"and-empty-{call}", dict(shape=[0, 0], call=call, reach=2)
+            yield f"and-S1x2-{call}", dict(shape=[1, 2], call=call, reach=2)
+        if tier != "quick":
+            yield "and-empty3d-filln0", dict(shape=[0, 0, 0], call="filln0", reach=2)
         if tier != "quick":
             yield "and-empty-filln2", dict(shape=[0, 0], call="filln2", reach=2)
 
     def declare(self, cx, p):
         shape = p["shape"]
         D = len(shape)
-        k = {"fill": 1, "filln1": 1, "filln2": 2}[p["call"]]
+        k = {"fill": 1, "filln1": 1, "filln2": 2, "filln0": 0, "fillnnan": 0}[p["call"]]
         x = {"w": [cx.pyfloat(f"w{a}") for a in range(D)], "t": [cx.pyint(f"t{a}", -2, 2) for a in range(D)], "f": declare_cells(cx, "f", shape, "int"),
              "x": [[cx.real(f"x{i}_{a}") for a in range(D)] for i in range(k)]}
         if cx.sym:
@@ -235,6 +241,8 @@ class C04StepND(Harness):
             h = cls(bins)
         if p["call"] == "fill":
             r = E.attempt(h.fill, list(x["x"][0]))
+        elif p["call"] == "fillnnan":
+            r = E.attempt(h.fill_n, np.asarray([[np.nan] * D, [np.nan] + [0.0] * (D - 1)], dtype=float))
         else:
             r = E.attempt(h.fill_n, np.asarray(x["x"], dtype=float).reshape((len(x["x"]), D)))
         obs = {"ret": r if p["call"] == "fill" else None}
@@ -257,7 +265,7 @@ class C04StepND(Harness):
         t = [cx.t(i) for i in x["t"]]
         rows = [[cx.t(c) for c in row] for row in x["x"]]
         nshape = [len(b) for b in fin["bins"]]
-        tm = [cx.t(g["times_min"]) for g in obs["grid"]]
+        tm = [cx.t(g["times_min"]) if g["times_min"] is not None else z3.IntVal(0) for g in obs["grid"]]  # None: the axis has no bins yet
         gidx = [[z3.ToInt(row[a] / w[a]) for a in range(D)] for row in rows]
         for a in range(D):
             yield f"bin_count[{a}]", cx.eq(obs["grid"][a]["bin_count"], z3.IntVal(nshape[a]))
@@ -265,6 +273,9 @@ class C04StepND(Harness):
                 yield f"edge_on_grid[{a}][{k}]", z3.And(cx.t(fin["bins"][a][k][0]) == (tm[a] + k) * w[a], cx.t(fin["bins"][a][k][1]) == (tm[a] + k + 1) * w[a])
             lows = ([t[a]] if shape[a] else []) + [g[a] for g in gidx]
             highs = ([t[a] + shape[a]] if shape[a] else []) + [g[a] + 1 for g in gidx]
+            if not lows:
+                yield f"still_no_bins[{a}]", nshape[a] == 0
+                continue
             lo, hi = lows[0], highs[0]
             for v in lows[1:]:
                 lo = z3.If(v < lo, v, lo)
